@@ -765,6 +765,8 @@ LIST_SERVICES = [
     ("a", (["--host", "c.example,d.example,e.example"], ["c.example", "d.example", "e.example"]), 0, [0], False, 0, "pause"),
     ("ab", (["--host", "c.example"], ["c.example"]), (["--path-prefix", "/deep/er/,/other"], ["/deep/er/", "/other"]), [1, 2, 0], False, 0, None),
     ("z.9", (["--host", "z.example"], ["z.example"]), 0, [0], False, 0, None),
+    # not ASCII, and the widest cell of its column (name and host): columns are sized and padded in bytes
+    ("\u00fcberwachung-der-dienste", (["--host", "b\u00fccher-und-caf\u00e9s.example"], ["b\u00fccher-und-caf\u00e9s.example"]), 0, [2], False, 0, None),
 ]
 
 
